@@ -210,7 +210,11 @@ def run_split(case):
         if kind == "num":
             ended = sp.do_num(sp.env.now + stop[1])
         elif kind == "abs":
-            ended = sp.do_num(stop[1])
+            # "inf" is a legal stop: everything finite takes effect, the clock ends at infinity
+            t_abs = float("inf") if stop[1] == "inf" else stop[1]
+            if t_abs == float("inf") and sp.env.now != t_abs:
+                sp.classes.add("stop at infinity")
+            ended = sp.do_num(t_abs)
         elif kind == "inexact":
             # instants t for which now + (t - now) != t in floating point: "now == t" must still hold exactly
             now = sp.env.now
@@ -288,7 +292,7 @@ def prog_strategy(tier):
 
 def plan_strategy():
     num = st.tuples(st.just("num"), st.sampled_from([0, 1, 2, 0.5, 1, 0.25, 0.1, 0.3, 3, -1, 0.05])).map(list)
-    ab = st.tuples(st.just("abs"), st.sampled_from([1, 2, 3, 0.5, 1.5, 0.3, 5, 6, 2.5])).map(list)
+    ab = st.tuples(st.just("abs"), st.sampled_from([1, 2, 3, 0.5, 1.5, 0.3, 5, 6, 2.5, 2, 3, "inf"])).map(list)
     due = st.tuples(st.just("due"), st.integers(0, 3)).map(list)
     btw = st.tuples(st.just("between"), st.integers(0, 3)).map(list)
     ev = st.tuples(st.just("ev"), st.integers(0, 3)).map(list)
